@@ -514,6 +514,13 @@ func (g *Gen) DupName() *Text {
 		} else {
 			p = part{name: dup.name, text: g.richRuleText(dup.name, g.nextSal())}
 		}
+		if q := "\"" + dup.name + "\""; r.Intn(2) == 0 && strings.Count(p.text, q) >= 1 {
+			// the same name SPELLED differently: doubled quotes at the ends of the literal are stripped with the
+			// delimiters, so this is still the name of the other rule
+			how = "same name spelled with doubled quotes at an end of the literal"
+			alt := []string{"\"\"\"" + dup.name + "\"", "\"" + dup.name + "\"\"\""}[r.Intn(2)]
+			p.text = strings.Replace(p.text, q, alt, 1)
+		}
 		pos := r.Intn(len(parts) + 1)
 		parts = append(parts[:pos], append([]part{p}, parts[pos:]...)...)
 	}
